@@ -93,7 +93,7 @@ public:
         }
         if(p.get("devices", 0) && !p.get("longrows", 0)) { addDeviceMetas(song, sr); run.count("multi_device_song"); }
         // loop markers in track 0 (valid: start before end), looping on with 2 passes
-        const bool looping = p.get("loop", 0) != 0 && !p.get("longrows", 0); uint32_t loopStartTick = 0, loopEndTick = 0;
+        const bool looping = p.get("loop", 0) != 0 && !p.get("longrows", 0); uint32_t loopStartTick = 0, loopEndTick = 0; bool startOnly = false;
         if(looping)
         {
             uint32_t maxTick = 0; for(size_t tk2 = 0; tk2 < song.tracks.size(); ++tk2) if(!song.tracks[tk2].ev.empty()) maxTick = std::max(maxTick, song.tracks[tk2].ev.back().tick);
@@ -102,9 +102,12 @@ public:
                 loopStartTick = (uint32_t)sr.range(0, maxTick / 2); loopEndTick = (uint32_t)sr.range(loopStartTick + 2, maxTick);
                 SEvent a; a.status = 0xFF; a.metaType = 0x06; a.tick = loopStartTick; const char *ls = "loopStart"; a.data.assign(ls, ls + 9); a.id = 200001;
                 SEvent b = a; b.tick = loopEndTick; const char *le = "loopEnd"; b.data.assign(le, le + 7); b.id = 200002;
+                // a third of the looping songs carry a loopStart marker only: the loop end is the end of the song (C09), every target inside the song is "before the loop end"
+                // (derived from the drawn tick, not drawn: recorded plans of the other runs keep their meaning)
+                startOnly = (loopStartTick % 3) == 0;
                 STrack &t0 = song.tracks[0]; size_t pa = 0; while(pa < t0.ev.size() && t0.ev[pa].tick < a.tick) ++pa; t0.ev.insert(t0.ev.begin() + (long)pa, a);
-                size_t pb2 = 0; while(pb2 < t0.ev.size() && t0.ev[pb2].tick <= b.tick) ++pb2; t0.ev.insert(t0.ev.begin() + (long)pb2, b);
-                run.count("song_with_loop_points");
+                if(!startOnly) { size_t pb2 = 0; while(pb2 < t0.ev.size() && t0.ev[pb2].tick <= b.tick) ++pb2; t0.ev.insert(t0.ev.begin() + (long)pb2, b); }
+                run.count(startOnly ? "song_with_loop_start_only" : "song_with_loop_points");
             }
         }
         for(size_t tk = 0; tk < song.tracks.size(); ++tk) { STrack &t = song.tracks[tk]; t.hasEOT = true; t.trailing.clear(); t.eotTick = (t.ev.empty() ? 0 : t.ev.back().tick) + (uint32_t)sr.range(0, song.division); }
@@ -124,7 +127,7 @@ public:
         }
         const double length = ref.length; // includes the 1 s tail
         // with looping on, every seek target stays before the loop end
-        const double seekLimit = (looping && loopEndTick) ? ref.timing.secondsAt(loopEndTick) - 2e-3 : (length - 1.0);
+        const double seekLimit = (looping && loopEndTick && !startOnly) ? ref.timing.secondsAt(loopEndTick) - 2e-3 : (length - 1.0);
         std::vector<double> times; for(size_t tk = 0; tk < ref.tracks.size(); ++tk) for(size_t i = 0; i < ref.tracks[tk].size(); ++i) times.push_back(ref.tracks[tk][i].time);
         std::sort(times.begin(), times.end());
         std::vector<double> tempoTimes; for(size_t i = 0; i < ref.tracks[0].size(); ++i) if(ref.tracks[0][i].kind == 0xFF && ref.tracks[0][i].metaType == 0x51) tempoTimes.push_back(ref.tracks[0][i].time);
